@@ -78,3 +78,126 @@ KINDS = {"optimize": t_optimize}
 
 def dispatch(t):
     return KINDS[t["kind"]](t)
+
+
+# ---------------------------------------------------------------- C03: rule and folding tables
+def _warm_up(opts=("-greedy",)):
+    p = params_for(list(opts))
+    b = impl.parse_block("PUSH1 0x1 DUP2 ADD")[0]
+    with impl.quiet():
+        impl.gasol_asm.compute_original_sfs_with_simplifications(b, p)
+    return p
+
+
+def dispatched_rule_opcodes():
+    """the opcode list of apply_transform_rules, read from the source with ast (generated fact)"""
+    import ast, inspect
+    src = inspect.getsource(impl.gopt.apply_transform_rules)
+    tree = ast.parse(src)
+    for n in ast.walk(tree):
+        if isinstance(n, ast.Compare) and isinstance(n.ops[0], ast.In) and isinstance(n.comparators[0], ast.List):
+            vals = [e.value for e in n.comparators[0].elts if isinstance(e, ast.Constant)]
+            if "AND" in vals:
+                return vals
+    return None
+
+
+def t_rule_table(t):
+    """shape-exhaustive table of the real apply_transform: every dispatched opcode x operand shapes"""
+    import copy
+    _warm_up(t.get("opts", ["-greedy"]))
+    ops = dispatched_rule_opcodes()
+    shapes = t["shapes"]          # list of ints and variable names
+    rows = []
+    for op in ops or []:
+        arity = 1 if op in ("NOT", "ISZERO") else 2
+        combos = [[a] for a in shapes] if arity == 1 else [[a, b] for a in shapes for b in shapes]
+        for args in combos:
+            instr = {"id": op + "_0", "opcode": "00", "disasm": op, "inpt_sk": list(args), "outpt_sk": ["s(50)"],
+                     "gas": 3, "commutative": False, "storage": False, "push": False, "size": 1}
+            try:
+                r = impl.gopt.apply_transform(copy.deepcopy(instr))
+                if r is None:
+                    r = -1
+                rows.append([op, args, r if isinstance(r, (int, str)) else repr(r), None])
+            except Exception as ex:
+                rows.append([op, args, None, "%s: %s" % (type(ex).__name__, ex)])
+    return {"ops": ops, "rows": rows}
+
+
+def t_fold_table(t):
+    """value table of the real constant folding (evaluate_expression / _ter / unary) on given operand values"""
+    _warm_up()
+    rows = []
+    for funct, a, b in t["bin"]:
+        try:
+            rows.append([funct, a, b, impl.gopt.evaluate_expression(funct, a, b), None])
+        except Exception as ex:
+            rows.append([funct, a, b, None, "%s: %s" % (type(ex).__name__, ex)])
+    ter = []
+    for funct, a, b, c in t.get("ter", []):
+        try:
+            ter.append([funct, a, b, c, impl.gopt.evaluate_expression_ter(funct, a, b, c), None])
+        except Exception as ex:
+            ter.append([funct, a, b, c, None, "%s: %s" % (type(ex).__name__, ex)])
+    return {"bin": rows, "ter": ter}
+
+
+KINDS.update({"rule_table": t_rule_table, "fold_table": t_fold_table})
+
+
+def t_opmap_table(t):
+    """opcode -> internal operator -> opcode round trip, observed in the specification (rules off):
+    for each opcode the spec of `<operands> OP` must contain exactly one instruction, with that opcode"""
+    p = params_for(["-greedy", "-no-simplification"])
+    rows = []
+    for op, nin in t["ops"]:
+        text = " ".join(["DUP%d" % nin] * nin + [op]) if nin else op
+        try:
+            b = impl.parse_block(text)[0]
+            with impl.quiet():
+                d, _ = impl.gasol_asm.compute_original_sfs_with_simplifications(b, p)
+            names = []
+            for k, v in d["syrup_contract"].items():
+                names += [u["disasm"] for u in v["user_instrs"]]
+            rows.append([op, names, None])
+        except Exception as ex:
+            rows.append([op, None, "%s: %s" % (type(ex).__name__, ex)])
+    return {"rows": rows}
+
+
+KINDS.update({"opmap_table": t_opmap_table})
+
+
+# ---------------------------------------------------------------- C05: the built-in checker
+def t_compare(t):
+    """real compare_asm_block_asm_format on two plain-text blocks"""
+    p = params_for(t["opts"])
+    r = {"a": t["a"], "b": t["b"]}
+    try:
+        A = impl.parse_block(t["a"])
+        B = impl.parse_block(t["b"])
+    except Exception as ex:
+        r["parse_exception"] = "%s: %s" % (type(ex).__name__, ex)
+        return r
+    if len(A) != 1 or len(B) != 1:
+        r["parse_exception"] = "not a single block"
+        return r
+    A, B = A[0], B[0]
+    try:
+        r["a_tokens"] = vocab.tokens_of_block(A)
+        r["b_tokens"] = vocab.tokens_of_block(B)
+        r["need"] = max(A.source_stack, B.source_stack)
+    except vocab.Unsupported as u:
+        r["unsupported"] = str(u)
+    try:
+        with impl.quiet():
+            eq, reason = impl.gasol_asm.compare_asm_block_asm_format(A, B, p)
+        r["eq"] = bool(eq)
+        r["reason"] = str(reason)[:200]
+    except Exception as ex:
+        r["exception"] = "%s: %s" % (type(ex).__name__, ex)
+    return r
+
+
+KINDS.update({"compare": t_compare})
